@@ -9,6 +9,7 @@ Protocol handler for C03 (packaged loops) — trace replay.
     C03 comma    <heap> <pop> <evtable> <script> <mu> <lambda> <gens>
     C03 plusbest <heap> <pop> <evtable> <script> <mu> <lambda> <gens>
     C03 harm     <heap> <pop> <evtable> <script> <nbrindsmodel> <gens>
+    C03 harmr    <heap> <pop> <evtable> <script> <nbrindsmodel> <alpha> <beta> <gamma> <mincutoff> <cutidx> <gens>
     C03 gu       <evtable> <gens>
 
 * `heap`, `pop`, `script`: as for C02 (fitness = weighted values).
@@ -19,11 +20,18 @@ Protocol handler for C03 (packaged loops) — trace replay.
     plus, comma   `<choices>/<select positions>`      choices: `x:i:j` (crossover), `m:i` (mutation), `r:i`
     plusbest      `<choices>`
     harm          `<natural turns>/<accepted turns>`  turns: `p:<acc>`, `x:i:j:<acc1>:<acc2>`, `m:i:<acc>`, `r:i:<acc>`
+    harmr         as harm, but every `<acc>` is the bit pattern (decimal UInt64) of the `random()` result that
+                  `acceptfunc` compared: the model computes the acceptance threshold itself (IEEE `Float`, the
+                  operation order of gp.py 1084-1122); alpha, beta, gamma are `f:<bits>`, `cutidx` is Python's
+                  `int(len(population) * rho - 1)`
     gu            `<objs>/<order>`                     objs `;`-separated `<oid>:<genome>|<fit>` — what
                                                        generate() returned (new or persistent individuals)
   lists are comma-separated, `-` = empty.
 
-Answer: `log=<gen:nevals,…> evals=<gen:oid,…> shown=<oids> bounds=<B0>+<B1>+… vlog=<variation calls>`
+A loop name with the suffix `-nohof` is the same run with `halloffame=None` (the answer then has `shown=-`).
+
+Answer: `log=<gen:nevals,…> evals=<gen:oid,…> shown=<oid:fit;…> bounds=<B0>+<B1>+… vlog=<variation calls>`
+(`shown`: what `halloffame.update` received, each individual with the fitness it carried at that moment)
 where `Bk = <population oids>|<fit;fit;…>` is the population after generation k (every boundary).
 `reject` when the machine does not allow the trace (wrong selection size, position out of range, tape or
 script not used up, …), `assert` for eaMuCommaLambda's `lambda_ >= mu`, `bad-op` on malformed input.
@@ -54,7 +62,18 @@ def parseChoice (s : String) : Option Choice :=
   | ["r", i] => (parseNat i).map Choice.rep
   | _ => none
 
-def parseTurn (s : String) : Option HStep :=
+def parseBitsFloat (s : String) : Option Float := s.toNat?.map (fun n => Float.ofBits (UInt64.ofNat n))
+
+def parseTurnR (s : String) : Option (HStep Float) :=
+  match s.splitOn ":" with
+  | ["p", a] => (parseBitsFloat a).map HStep.pick
+  | ["x", i, j, a, b] => do
+    some (HStep.cx (← parseNat i) (← parseNat j) (← parseBitsFloat a) (← parseBitsFloat b))
+  | ["m", i, a] => do some (HStep.mutn (← parseNat i) (← parseBitsFloat a))
+  | ["r", i, a] => do some (HStep.rep (← parseNat i) (← parseBitsFloat a))
+  | _ => none
+
+def parseTurn (s : String) : Option (HStep Bool) :=
   match s.splitOn ":" with
   | ["p", a] => (parseBool a).map HStep.pick
   | ["x", i, j, a, b] => do some (HStep.cx (← parseNat i) (← parseNat j) (← parseBool a) (← parseBool b))
@@ -95,7 +114,11 @@ def missing (s : LState) : Bool :=
 
 /-- `top` = the same run through the model's packaged function (`eaSimple`, …): must agree with the
 generation-by-generation replay. -/
-def finish (top : Option (Script × LState)) (r : Option (Script × LState × List String)) : String :=
+def showShown (s : LState) : String :=
+  if s.shownObj.isEmpty then "-" else
+    ";".intercalate (s.shownObj.map (fun e => toString e.1 ++ ":" ++ showFit e.2))
+
+def finish (hof : Bool) (top : Option (Script × LState)) (r : Option (Script × LState × List String)) : String :=
   match r with
   | none => if top.isNone then "reject" else "internal-mismatch"
   | some (t, s, bounds) =>
@@ -107,7 +130,7 @@ def finish (top : Option (Script × LState)) (r : Option (Script × LState × Li
     else if missing s then "bad-table"
     else
       "log=" ++ showList showPair s.log ++ " evals=" ++ showList showPair s.evals
-        ++ " shown=" ++ showList toString s.shown
+        ++ " shown=" ++ (if hof then showShown s else "-")
         ++ " bounds=" ++ (if bounds.isEmpty then "-" else "+".intercalate bounds)
         ++ " vlog=" ++ showList showEv s.st.log
 
@@ -125,26 +148,26 @@ def parseCommon (heaps pops tbls scr : String) : Option Common := do
   if pop.all (· < objs.length) then some ⟨objs, pop, tbl, sc⟩ else none
 
 /-- population-based loops: generation 0, then the given steps from generation 1 -/
-def runPopLoop (c : Common) (steps : List (Step Script))
+def runPopLoop (hof : Bool) (c : Common) (steps : List (Step Script))
     (top : (List Int → List Int) → Script → LState → Option (Script × LState)) : String :=
   let s0 : LState := { st := mkState c.objs, pop := c.pop }
   let ev := evOf c.tbl
   let g0 := gen0 ev s0
-  finish (top ev ⟨c.script, true⟩ s0) (replay ev steps 1 ⟨c.script, true⟩ g0 [showBound g0])
+  finish hof (top ev ⟨c.script, true⟩ s0) (replay ev steps 1 ⟨c.script, true⟩ g0 [showBound g0])
 
-def handle : List String → String
+def handleH (hof : Bool) : List String → String
   | ["simple", heaps, pops, tbls, scr, gens] =>
     match parseCommon heaps pops tbls scr, parseGens (fun
         | [a, b, c] => do some (⟨← parseList parseNat a, ← parseBits b, ← parseBits c⟩ : SimpleDec)
         | _ => none) gens with
-    | some c, some ds => runPopLoop c (ds.map (simpleStep scripted)) (fun ev t s => eaSimple scripted ev ds t s)
+    | some c, some ds => runPopLoop hof c (ds.map (simpleStep scripted)) (fun ev t s => eaSimple scripted ev ds t s)
     | _, _ => "bad-op"
   | [kind, heaps, pops, tbls, scr, mus, lams, gens] =>
     match parseCommon heaps pops tbls scr, parseNat mus, parseNat lams with
     | some c, some mu, some lam =>
       if kind = "plusbest" then
         match parseGens (fun | [a] => parseList parseChoice a | _ => none) gens with
-        | some ds => runPopLoop c (ds.map (plusBestStep scripted mu lam))
+        | some ds => runPopLoop hof c (ds.map (plusBestStep scripted mu lam))
             (fun ev t s => eaMuPlusLambdaBest scripted ev mu lam ds t s)
         | none => "bad-op"
       else
@@ -153,10 +176,10 @@ def handle : List String → String
             | _ => none) gens with
         | some ds =>
           if kind = "plus" then
-            runPopLoop c (ds.map (plusStep scripted mu lam)) (fun ev t s => eaMuPlusLambda scripted ev mu lam ds t s)
+            runPopLoop hof c (ds.map (plusStep scripted mu lam)) (fun ev t s => eaMuPlusLambda scripted ev mu lam ds t s)
           else if kind = "comma" then
             if commaAssert mu lam then
-              runPopLoop c (ds.map (commaStep scripted mu lam))
+              runPopLoop hof c (ds.map (commaStep scripted mu lam))
                 (fun ev t s => eaMuCommaLambda scripted ev mu lam ds t s)
             else "assert"
           else "bad-op"
@@ -164,20 +187,35 @@ def handle : List String → String
     | _, _, _ => "bad-op"
   | ["harm", heaps, pops, tbls, scr, nbrs, gens] =>
     match parseCommon heaps pops tbls scr, parseNat nbrs, parseGens (fun
-        | [a, b] => do some (⟨← parseList parseTurn a, ← parseList parseTurn b⟩ : HarmDec)
+        | [a, b] => do some (⟨← parseList parseTurn a, ← parseList parseTurn b⟩ : HarmDec Bool)
         | _ => none) gens with
     | some c, some nbr, some ds =>
-      runPopLoop c (ds.map (harmStep scripted nbr)) (fun ev t s => harm scripted ev nbr ds t s)
+      runPopLoop hof c (ds.map (harmStep scripted nbr)) (fun ev t s => harm scripted ev nbr ds t s)
     | _, _, _ => "bad-op"
+  | ["harmr", heaps, pops, tbls, scr, nbrs, al, be, ga, mc, ci, gens] =>
+    match parseCommon heaps pops tbls scr, parseNat nbrs, parseGens (fun
+        | [a, b] => do some (⟨← parseList parseTurnR a, ← parseList parseTurnR b⟩ : HarmDec Float)
+        | _ => none) gens,
+      (do some (⟨← parseFloat al, ← parseFloat be, ← parseFloat ga, ← parseNat mc, ← parseInt ci⟩ :
+        HarmParams Float)) with
+    | some c, some nbr, some ds, some p =>
+      runPopLoop hof c (ds.map (harmStepR scripted nbr p))
+        (fun ev t s => harmR scripted ev nbr (ds.map (fun d => (p, d))) t s)
+    | _, _, _, _ => "bad-op"
   | ["gu", tbls, gens] =>
     match parseTable tbls, parseGens (fun
         | [a, b] => do some ((← parseOidObjs a), (← parseList parseNat b))
         | _ => none) gens with
     | some tbl, some gs =>
       let s0 : LState := { st := mkState [], pop := [] }
-      finish (eaGenerateUpdate (evOf tbl) gs ⟨[], true⟩ (mkState []))
+      finish hof (eaGenerateUpdate (evOf tbl) gs ⟨[], true⟩ (mkState []))
         (replay (evOf tbl) (gs.map (fun g => guStep g.1 g.2)) 0 ⟨[], true⟩ s0 [])
     | _, _ => "bad-op"
   | _ => "bad-op"
+
+def handle : List String → String
+  | kind :: rest =>
+    if kind.endsWith "-nohof" then handleH false ((kind.dropEnd 6).toString :: rest) else handleH true (kind :: rest)
+  | [] => "bad-op"
 
 end DriverC03
